@@ -207,8 +207,62 @@ func runC12(c *report.Ctx) {
 				}
 			}
 		})
+		// the same obligation stated on paths (whatever shape the window test has — a verdict flag, early returns of
+		// an extracted helper): no feasible path reaches a derivation unless it lies outside the window condition
+		// (next index 0, or next index + request within the gap limit) or the chain oracle answered yes on the way
+		windowByPaths := func(goal ssa.Instruction) bool {
+			fromChildNum := func(v ssa.Value) bool { return strings.Contains(p.Desc(v), "getChildNum") }
+			s := &an.Search{P: p, Fn: na, GoalInstr: func(in ssa.Instruction) bool { return in == goal },
+				CutEdge: func(from, to *ssa.BasicBlock) bool {
+					ifi, ok := from.Instrs[len(from.Instrs)-1].(*ssa.If)
+					if !ok || len(from.Succs) != 2 {
+						return false
+					}
+					a := p.MkAtom(ifi.Cond, to == from.Succs[0], ifi)
+					// the oracle said yes
+					if a.Op == token.ILLEGAL && a.Truth {
+						if ex, isEx := a.X.(*ssa.Extract); isEx && ex.Index == 0 {
+							if call, isCall := ex.Tuple.(*ssa.Call); isCall {
+								if _, isPar := call.Call.Value.(*ssa.Parameter); isPar {
+									return true
+								}
+							}
+						}
+					}
+					// outside the window: next index == 0, or next index + request <= gap limit
+					if a.Op == token.EQL && a.X != nil && a.Y != nil && fromChildNum(a.X) {
+						if k, isK := constInt(a.Y); isK && k == 0 {
+							return true
+						}
+					}
+					if a.Op == token.LEQ && a.X != nil && a.Y != nil {
+						if sum, isSum := a.X.(*ssa.BinOp); isSum && sum.Op == token.ADD && (fromChildNum(sum.X) || fromChildNum(sum.Y)) {
+							if _, isPar := a.Y.(*ssa.Parameter); isPar {
+								return true
+							}
+						}
+					}
+					return false
+				}}
+			return s.Run(na.Blocks[0], 0, nil) == nil
+		}
+		pathsOK := len(derive) > 0
+		for i, s := range derive {
+			key := siteKey(na, "derive~window-on-every-path", i+1)
+			if !windowByPaths(s) {
+				pathsOK = false
+				c.Fail(key, "a derivation can be reached inside the window condition without a positive answer of the chain oracle on the way: the wallet issues addresses beyond the restore horizon", posOf(c, s))
+			} else {
+				c.OK(key, "every feasible path lies outside the window condition or passes the oracle's yes", posOf(c, s))
+			}
+		}
 		if !foundWindow {
-			c.Fail(sk(na)+":window", "no gap-window rejection (return ErrGapLimit under !pass) found: the wallet issues addresses beyond the restore horizon", p.Pos(na.Pos()))
+			if pathsOK {
+				c.OK(sk(na)+":window", "every feasible path to a derivation lies outside the window condition or passes a positive answer of the chain oracle", p.Pos(na.Pos()))
+				c.OK(sk(na)+":window-pass-only-from-oracle", "(stated on paths: only the oracle's yes opens the window)", p.Pos(na.Pos()))
+			} else {
+				c.Fail(sk(na)+":window", "no gap-window rejection (return ErrGapLimit under !pass) found: the wallet issues addresses beyond the restore horizon", p.Pos(na.Pos()))
+			}
 		}
 		// the window test dominates derivation: derivation unreachable from the ErrGapLimit branches is trivially true;
 		// check that the window If dominates the derive sites
@@ -224,6 +278,9 @@ func runC12(c *report.Ctx) {
 					ok = true
 				}
 				_ = d
+			}
+			if !ok && windowByPaths(s) {
+				ok = true
 			}
 			key := siteKey(na, "derive~after-window", i+1)
 			if ok {
